@@ -149,6 +149,33 @@ def nworkers_default():
 
 
 # --------------------------------------------------------------------------- worker
+def install_tripwires():
+    """A forgotten real clock, network connection or child process would silently make a
+    run unrepeatable: inside workers they raise instead."""
+    import socket
+    import time as _time
+
+    real_sleep = _time.sleep
+
+    def sleep(d):
+        if d and d > 0.002:
+            raise kernel.HarnessError(f"real time.sleep({d}) reached inside the simulation")
+        return real_sleep(d)
+
+    _time.sleep = sleep
+
+    def connect(self, *a, **kw):
+        raise kernel.HarnessError(f"real socket connect{a!r} reached inside the simulation")
+
+    socket.socket.connect = connect
+    socket.socket.connect_ex = connect
+
+    def popen(*a, **kw):
+        raise kernel.HarnessError(f"subprocess.Popen{a!r} reached inside the simulation")
+
+    subprocess.Popen.__init__ = popen
+
+
 def worker_main(argv):
     import faulthandler
     prop, tier, seed, widx, nworkers, outpath = argv[0], argv[1], int(argv[2]), int(argv[3]), int(argv[4]), argv[5]
@@ -158,6 +185,7 @@ def worker_main(argv):
     faulthandler.dump_traceback_later(plan["budget_s"] * 3 + 120, exit=True)
     import logging
     logging.disable(logging.CRITICAL)
+    install_tripwires()
     scratch = tempfile.mkdtemp(prefix=f"vsim-{prop}-w{widx}-", dir=kernel.scratch_root())
     res = {"stats": {}, "violation": None, "harness_error": None, "widx": widx}
     try:
